@@ -1,2 +1,98 @@
-// Package c09 binds the TLA+ specification of property C09 to the Go code.
 package c09
+
+import (
+	"encoding/json"
+	"fmt"
+	"runtime"
+	"sync"
+	"sync/atomic"
+
+	"verifharness/internal/vh"
+)
+
+func init() {
+	vh.Register("c09", "replay", replayCmd)
+	vh.Register("c09", "record", recordCmd)
+}
+
+// replayCmd: vh c09 replay <vectors> <result> [variants]
+func replayCmd(args []string) error {
+	if len(args) < 2 {
+		return fmt.Errorf("usage: replay <vectors> <result> [variants]")
+	}
+	nvar := 1
+	if len(args) > 2 {
+		fmt.Sscan(args[2], &nvar)
+	}
+	res, err := vh.NewResult(args[1])
+	if err != nil {
+		return err
+	}
+	type job struct {
+		raw []byte
+		n   int
+	}
+	jobs := make(chan job, 1024)
+	var wg sync.WaitGroup
+	var replayed, events, hangs, nontrivial atomic.Int64
+	seed := int(vh.Seed())
+	var ddMu sync.Mutex
+	dd := vh.NewDedup()
+	for w := 0; w < runtime.NumCPU(); w++ {
+		wg.Add(1)
+		go func() {
+			defer wg.Done()
+			for j := range jobs {
+				var v Vector
+				if err := json.Unmarshal(j.raw, &v); err != nil {
+					res.Mismatch("harness", "bad vector: "+err.Error(), string(j.raw))
+					continue
+				}
+				if hangs.Load() > 2 {
+					continue
+				}
+				if len(v.Evs) > 0 {
+					ddMu.Lock()
+					if dd.Add(j.raw) {
+						nontrivial.Add(1)
+					}
+					ddMu.Unlock()
+				}
+				for variant := 0; variant < nvar; variant++ {
+					m := Replay(&v, seed+variant)
+					replayed.Add(1)
+					events.Add(int64(len(v.Evs)))
+					if m == nil {
+						continue
+					}
+					if m.Hang {
+						// A hang must reproduce to count.
+						if m2 := Replay(&v, seed+variant); m2 == nil || !m2.Hang {
+							res.Mismatch("harness", "non-reproducible hang", v.Key())
+							continue
+						}
+						hangs.Add(1)
+					}
+					res.Mismatch(v.Key(), fmt.Sprintf("event #%d: %s", m.Index+1, m.What), v)
+					break
+				}
+				if j.n%50021 == 7 {
+					res.Sample(v)
+				}
+			}
+		}()
+	}
+	n := 0
+	err = vh.ForEachVector(args[0], func(_ int, raw []byte) error {
+		n++
+		jobs <- job{raw: append([]byte(nil), raw...), n: n}
+		return nil
+	})
+	close(jobs)
+	wg.Wait()
+	if err != nil {
+		return err
+	}
+	return res.Close(map[string]any{"replayed": replayed.Load(), "vectors": n, "events": events.Load(),
+		"distinct_nontrivial": nontrivial.Load(), "hangs": hangs.Load()})
+}
